@@ -506,6 +506,11 @@ def client_wiring(F, R):
                 ap = apath(b, t['args'][pi]) if pi < len(t['args']) else None
                 R.ob('C12.wiring', '%s-client|%s|create_dispatcher(limit <- max_receive)' % (ver, re.sub(r'(::\{(closure|inl)#\d+\})+$', '', b.path)), ap is not None and ap[-1] == 'max_receive',
                      'the in-flight limit of the client dispatcher is built from %s, not from the configured max_receive' % apath_str(ap), b.loc(bi))
+    # a start variant that hands over to a sibling (`start_default` -> `start` -> `start_with_control`) has no site of its own
+    for ver in ('v3', 'v5'):
+        for b in F.find(r'^%s::client::connection::(Client|ClientRouter::<Err, PErr>)::start\w*::\{closure#0\}$' % ver):
+            if not list(b.calls_to(r'^%s::client::dispatcher::create_dispatcher$' % ver)) and list(b.calls_to(r'^%s::client::connection::(Client|ClientRouter::<Err, PErr>)::start\w*$' % ver)):
+                n += 1
     R.floor('C12.wiring', 'client create_dispatcher call sites', n, 6)
 
 
